@@ -3,8 +3,8 @@
 From GV.Model Require Import SEval.
 From GV.Proofs Require Import StatusProps EvalLaws CompareProps NegationProps TableProps.
 From GV.Generated Require Import EvalTables.
-From GV.Model Require Import ValueParse QueryParse OpParse ClauseParse.
-From GV.Proofs Require Import ValueSpellProps QuerySpellProps OpParseProps ClauseParseProps ClauseSpellProps.
+From GV.Model Require Import ValueParse QueryParse OpParse ClauseParse CnfParse.
+From GV.Proofs Require Import ValueSpellProps QuerySpellProps OpParseProps ClauseParseProps ClauseSpellProps CnfParseProps.
 
 (* `not X exists` == `X !exists`, likewise empty and the is_* tests: same status, same
    final state, for every query, all/some, every callee evaluator, every state *)
@@ -118,3 +118,9 @@ Theorem C03_spelled_negation_sets_the_flag : forall rv c o rest, cwf rv c o -> c
   exists pc r, clause_top rv (crender rv c +++ rest) = POk pc r /\ pc_neg pc = neg_flag (cl_neg c) /\ pc_cmp pc = o.
 Proof. exact spelled_negation_sets_the_flag. Qed.
 Print Assumptions C03_spelled_negation_sets_the_flag.
+
+(* a reference to a named rule: the negation in front of it is recorded exactly *)
+Theorem C03_rule_reference_negation_is_recorded : forall s v r,
+  rule_clause s = POk v r -> pn_neg v = match not_kw s with Some _ => true | None => false end.
+Proof. exact rule_reference_negation. Qed.
+Print Assumptions C03_rule_reference_negation_is_recorded.
